@@ -74,6 +74,15 @@ def edit_layout(recs, rng, desc):
             i = rng.choice(starts)
             rl[i].atoms = [a for a in rl[i].atoms if a.aname() != "N"]
             edits.append("first-residue-without-N")
+    # 1b. ionizable residues cut back to their defining atom (a ring without its nitrogens, a carboxylate without
+    # its oxygens, a guanidinium without its nitrogens): the site is there as long as that atom is
+    if rng.random() < 0.15 and rl:
+        bare = {"HIS": ("ND1", "CD2", "CE1", "NE2"), "ASP": ("OD1", "OD2"), "GLU": ("OE1", "OE2"), "ARG": ("NE", "NH1", "NH2")}
+        cand = [i for i, r in enumerate(rl) if r.key[0] == "ATOM  " and r.key[4] in bare]
+        for i in rng.sample(cand, min(len(cand), rng.choice((1, 2, 3)))):
+            rl[i].atoms = [a for a in rl[i].atoms if a.aname() not in bare[rl[i].key[4]]]
+        if cand:
+            edits.append("residues-cut-back-to-the-defining-atom")
     # 2. single-residue chain: TER after the first residue of a chain
     if rng.random() < 0.15 and len(rl) > 3:
         i = rng.randrange(1, len(rl))
